@@ -456,6 +456,7 @@ class Runner(Exec):
                 ctx.assume(state, self.ev_spec(state, node, extra))
 
         # 1. invariant holds on entry
+        self.run_ghost(st, "%s.before" % tag)
         check_invs(st, "init")
         # 2. havoc everything the loop may modify
         names = assigned_names(body) | ({hidden} if mode is not None else set())
